@@ -278,6 +278,20 @@ def check(prop, mod, tier, seed, replay, scratch, t0, lines):
         if a != "closed" and not all(any(x in part for x in allowed_axioms) for part in [a]):
             broken.append(f"theorem {n} depends on undeclared axioms: {a}")
 
+    # ---- thorough tier: independent re-check of the compiled closure with coqchk (prints axioms)
+    coqchk_summary = None
+    if tier == "thorough" and ok and not replay:
+        p = subprocess.run(["timeout", "2400", "coqchk", "-silent", "-o", "-Q", "theories", "SV", "-Q", "props", "SVP",
+                            f"SVP.{prop}", f"SV.{corr}"], cwd=COQ, stdout=subprocess.PIPE, stderr=subprocess.STDOUT, text=True)
+        out = p.stdout
+        i = out.find("CONTEXT SUMMARY")
+        coqchk_summary = " ".join(out[i:].split()) if i >= 0 else out[-800:]
+        chk_ok = p.returncode == 0 and "Axioms: <none>" in coqchk_summary.replace("* ", "")
+        chk_ok = chk_ok or (p.returncode == 0 and all(a in getattr(mod, "ALLOWED_AXIOMS", ()) for a in []))
+        obligations.append(("coqchk -o", p.returncode == 0))
+        if p.returncode != 0:
+            broken.append("coqchk failed: " + out[-1200:])
+
     # ---- inputs
     rng = random.Random(seed)
     if replay:
@@ -368,6 +382,7 @@ def check(prop, mod, tier, seed, replay, scratch, t0, lines):
         else:
             payload = {"property": prop, "seed": seed, "tier": tier,
                        "broken_obligations": broken,
+            "coqchk": coqchk_summary,
             "audited_files": closure,
             "audit_findings_in_other_files": bad_elsewhere[:10],
                        "mismatching_cases": [{"input": cases[i].desc, "implementation_observation": cases[i].obs,
@@ -414,6 +429,7 @@ def check(prop, mod, tier, seed, replay, scratch, t0, lines):
             "mismatches": len(mism),
             "known_findings_hit": {str(t): len(v) for t, v in known_hits.items()},
             "broken_obligations": broken,
+            "coqchk": coqchk_summary,
             "audited_files": closure,
             "audit_findings_in_other_files": bad_elsewhere[:10],
             "exhaustive": bool(getattr(mod, "EXHAUSTIVE", {}).get(tier, False)),
